@@ -70,9 +70,83 @@ def unit_part(ctx, c):
                                   replay={'case': cases[i], 'impl': res['out'][i]}, found_input=True))
 
 
+def shared_part(ctx, c):
+    """scenarios of the deepening round: the same nested-bundle list OBJECT sent several times from
+    different logical times (the harness caches the Python lists per element tree), negative
+    latencies at logical time > 0 next to other bundles of the same instant."""
+    rng = ctx.rng
+    cases = list(K.SHARE_PROGS) + list(K.NEG_PROGS)
+    def deep_tree():
+        for _ in range(50):
+            t = K.gen_elems(rng, None, 2)
+            if any(e[0] == 'b' and any(x[0] == 'b' for x in e[2]) for e in t):
+                return t
+        return [['m', 1], ['b', '1/4', [['m', 2], ['b', '1/2', [['m', 3]]]]]]
+    for i in range(ctx.n(40, 400)):
+        p = K.gen_prog(rng, 'time', malformed=False)
+        tree = deep_tree()
+        for b in p['bodies']:
+            if rng.random() < 0.7:
+                at = rng.randint(0, len(b))
+                ins = [['B', None, json.loads(json.dumps(tree))], ['Y', rng.choice(['1/8', '1/4', '1'])],
+                       ['S', rng.choice(['-1/4', '-1', '-1/8']), rng.randint(0, 99)], ['S', '0', rng.randint(0, 99)],
+                       ['B', rng.choice([None, '-1']), json.loads(json.dumps(tree))]]
+                b[at:at] = ins
+        if rng.random() < 0.5:
+            p['main'].append(['B', None, json.loads(json.dumps(tree))])
+        cases.append(p)
+    outs, bad, explain, errors = K.run_nrt_correspondence(ctx, cases, 'nrt_shared', share=True)
+    c.evaluations += len(cases)
+    nshared = 0
+    for p, o in zip(cases, outs):
+        if 'fatal' in o:
+            continue
+        seen = {}
+        for e in o['events']:
+            if e[0] == 'send' and e[5] is not None and any(x[0] == 'b' for x in e[4]):
+                seen.setdefault(json.dumps(e[4]), set()).add(e[2])
+        if any(len(v) > 1 for v in seen.values()):
+            nshared += 1
+            c.nontriv(('shared', json.dumps(p, sort_keys=True)))
+        if any(e[0] == 'send' and e[3] is not None and Fraction(e[3]) < 0 and Fraction(e[2]) > 0 for e in o['events']):
+            c.count('nrt:negative-latency-at-positive-logical-time')
+    c.count('nrt:same-nested-list-object-sent-at-several-logical-times', nshared)
+    for i, e in errors:
+        c.failures.append(Failure('correspondence', 'NRT shared-list case %d could not be compared: %s' % (i, e[:600]),
+                                  replay={'program': cases[i] if i >= 0 else None}))
+    reported = False
+    mutated = [i for i, o in enumerate(outs) if o.get('mutations')]
+    for i in sorted(set(bad) | set(mutated)):
+        o = outs[i]
+        if o.get('mutations'):
+            if reported:
+                continue
+            reported = True
+            m = o['mutations'][0]
+            c.failures.append(Failure(
+                'correspondence',
+                'OscScore.add changes the caller\'s nested bundle lists (NRT): after send_bundle at logical time %s the list object %s '
+                'has become %s; sent again it is stamped from the altered latencies (list view, raw bytes and model disagree: %s). Program: %s'
+                % (m['at_logical_time'], json.dumps(m['sent']), json.dumps(m['callers_list_after_send']),
+                   'yes' if i in bad else 'not in this run', json.dumps(cases[i])),
+                signature=K.SIGNATURES['MUT'], theorem='score_times_exact', found_input=True,
+                replay={'program': cases[i], 'share_lists': True, 'mutations': o['mutations'], 'observed_score': o['score'],
+                        'how': 'SC3_MODE=nrt PYTHONPATH=$SC3_REPO:/verif/harness python harness/impl/c05_kscript.py <in.json with {"cases":[program],"share_lists":true}> out.json'}))
+            continue
+        t = K.classify(explain.get(i))
+        ls = T.labels(t) if t is not None else None
+        if ls is not None and not [l for l in ls if l in MINE]:
+            c.count('nrt:disagreement-owned-by-other-property:' + '+'.join(ls))
+            continue
+        c.failures.append(Failure('correspondence', 'NRT (shared list objects): model and implementation disagree (%s). Program: %s'
+                                  % (ls, json.dumps(cases[i])), replay={'program': cases[i], 'implementation': o},
+                                  signature=K.SIGNATURES['F17'] if ls == ['F17'] else None, found_input=True))
+
+
 def correspond(ctx):
     c = Corr()
     unit_part(ctx, c)
+    shared_part(ctx, c)
     cases, outs = T.nrt_part(ctx, c, ctx.n(150, 1500), MINE, None)
     T.rt_part(ctx, c, ctx.n(25, 250))
     nb = 0
@@ -82,7 +156,9 @@ def correspond(ctx):
                 c.count('nrt:score-entry:%s' % ('nested' if any(x[0] == 'b' for x in s[4]) else 'flat'))
     c.rule = ('unit level: _get_timetag (both variants), _check_subtime, elapsed_time_to_osc, osc_to_elapsed_time on dyadic inputs, exact; '
               'program level: as C05 (same script programs): every stamped bundle (due time, timetag, nesting), the NRT score list zipped with the '
-              'raw bytes split by an independent length-prefix splitter and OSC reader, RT datagrams captured at _send under jitter, all exact')
+              'raw bytes split by an independent length-prefix splitter and OSC reader, RT datagrams captured at _send under jitter, all exact; '
+              'plus a batch where equal element trees are sent as the SAME Python list objects (aliasing) and fixed scenarios with negative '
+              'latencies at logical time > 0 among other bundles of the same instant')
     c.samples = [{'program': cases[i], 'score': outs[i]['score'][:6]} for i in range(1, min(3, len(cases)))]
     return c
 
